@@ -55,7 +55,7 @@ CHECKS = {
         design="DESIGN.md section 4 / C08",
     ),
     "C09": dict(
-        technique="stateful property-based testing (Hypothesis RuleBasedStateMachine growing a history; invariant compares every earlier snapshot) + metamorphic to-date vs truncation relation with optional sheet-like row renumbering (adding an acquisition shifts every OUT/INTRA row; first rows near 9|10, 99|100), results mapped back before comparison",
+        technique="stateful property-based testing (Hypothesis RuleBasedStateMachine growing a history; invariant compares every earlier snapshot) + metamorphic to-date vs truncation relation + end-to-end tier (whole spreadsheet with -t vs truncated spreadsheet; whole vs cut at an instant) with optional sheet-like row renumbering (adding an acquisition shifts every OUT/INTRA row; first rows near 9|10, 99|100), results mapped back before comparison",
         text="Every cut point of every generated growth history is compared (fractions, figures, closed-year totals); the to-date form compares whole ComputedData dumps incl. k/n labels, balances, average price, running sums.",
         note="Cut points between distinct instants; form (b) histories date-monotone (R3).",
         design="DESIGN.md section 4 / C09",
